@@ -231,10 +231,47 @@ func lzInputs(ctx *Ctx, budget int) []lzInput {
 		}
 		return b.Bytes()[:n]
 	}
+	// NUL-heavy binary data: the encoder's ring buffer is zero-initialised past its end, so a
+	// mismatch against a NUL is where a mirroring slip shows (seeded change C07-a)
+	for k := 0; k < ctx.N(40, 200); k++ {
+		n := 130 + r.Intn(4400)
+		d := make([]byte, n)
+		for i := range d {
+			if r.Intn(30) == 0 {
+				d[i] = byte(1 + r.Intn(255))
+			}
+		}
+		add("sparse-nul", d)
+		var e []byte
+		for len(e) < n {
+			e = append(e, bytes.Repeat([]byte{byte(r.Intn(3))}, 1+r.Intn(120))...)
+		}
+		add("nul-alphabet-runs", e[:n])
+		var g []byte
+		for len(g) < n {
+			g = append(g, r.Bytes(1+r.Intn(70))...)
+			g = append(g, make([]byte, 55+r.Intn(11))...)
+		}
+		add("nul-gap", g[:n])
+	}
+	// literals up to the end of the ring, a NUL run, then a byte at ring position 58 (+2048k)
+	for k := 0; k < 3; k++ {
+		for _, shift := range []int{-1, 0, 1} {
+			var d []byte
+			for i := 0; i < 58+shift+2048*k; i++ {
+				d = append(d, byte('A'+i%57))
+			}
+			d = append(d, make([]byte, 60)...)
+			d = append(d, 'X')
+			d = append(d, []byte("tail of the input")...)
+			add("ring-end-nul", d)
+		}
+	}
 	used := 0
 	for _, i := range in {
 		used += len(i.Data)
 	}
+	budget += used
 	for used < budget {
 		n := 1 + r.Intn(3000)
 		switch r.Intn(5) {
